@@ -579,9 +579,8 @@ _pin = Spec("point_inside", "field_BH_tetrahedron", "point_inside", dict(points=
             has_field=False, extra_kwargs=dict(in_out="auto"))
 _pin.out_shape = ()
 _regc(_pin)
-# current_polyline_Hfield: homogeneity, linearity and no-argument-write are decided by typing / the write log on the real code; the
-# non-interference obligation needs nonlinear real arithmetic that z3/cvc5 do not finish in 30 s: row-wise stays an ASSUMED contract.
+# current_polyline_Hfield: np.empty is eliminated propositionally from the mask structure; then homogeneity, linearity, no-argument-write and the
+# non-interference obligations are all decided on the real code.
 _poly = Spec("current_polyline_Hfield", "field_BH_polyline", "current_polyline_Hfield", dict(observers=(3,), segments_start=(3,), segments_end=(3,), currents=()), {}, "core",
              pol="currents", homog=-1, lengths=("observers", "segments_start", "segments_end"), has_field=False, extra_ns=dict(norm=NPG.linalg.norm))
-_poly.skip_rowwise = True
 _regc(_poly)
